@@ -199,3 +199,55 @@ Proof.
     intros kid k sg msg Hk Hs. cbn [md_signatures] in Hs. destruct Hs as [<-|[]].
     cbn [ly_keys L1 mk_layout] in Hk. destruct Hk as [Hk|[Hk|[]]]; injection Hk as <- <-; split; vm_compute; discriminate.
 Qed.
+
+(* ------------------------------------------------------------------ *)
+(** * regression witness for the repaired D8: the link-signature stage as it was before commit
+      5cf545d (no comparison of the signed step name) counted a replayed link *)
+
+Section Legacy.
+  Variable sig_ok : str -> list N -> str -> bool.
+  Variable now_s : Z.
+  Fixpoint verify_step_links_legacy (l : layout) (mk : list (str * json)) (st : step)
+           (found : list (str * metadata)) (used : list str) (acc : list (str * metadata))
+    : res (list str * list (str * metadata)) :=
+    match found with
+    | [] => Ok (used, acc)
+    | (kid, md) :: found' =>
+        match verification_key l mk st kid with
+        | None => verify_step_links_legacy l mk st found' used acc
+        | Some (Err e) => Err e
+        | Some (Ok (vk, mainid)) =>
+            match verify_signature sig_ok now_s md vk with
+            | Err ESignature | Err EKeyExpired => verify_step_links_legacy l mk st found' used acc
+            | Err e => Err e
+            | Ok _ =>
+                match mainid with
+                | JStr mkid => verify_step_links_legacy l mk st found' (used ++ [mkid]) (dict_set kid md acc)
+                | _ => Err EUnmodelled
+                end
+            end
+        end
+    end.
+End Legacy.
+
+Definition loaded (files : list (str * file)) (l : layout) (st : step) : list (str * metadata) :=
+  match load_step x_b64 x_loads files l st with Ok f => f | Err _ => [] end.
+Definition st1 := mk_step "s1" ["aa"; "bb"] 2.
+
+Theorem legacy_replay_refuted :
+  exists used good kid md lk,
+    verify_step_links_legacy x_sig_ok x_now_s L2 (main_keys_for_subkeys L2) st1 (loaded [fA; fB_replayed] L2 st1) [] []
+      = Ok (used, good) /\
+    length (dedup used) = 2 /\ In (kid, md) good /\ get_payload md = Ok (PLink lk) /\
+    l_name lk <> JStr (st_name st1) /\
+    (* the repaired stage skips it *)
+    (exists used', verify_step_links x_sig_ok x_now_s L2 (main_keys_for_subkeys L2) st1 (loaded [fA; fB_replayed] L2 st1) [] []
+                   = Ok (used', filter (fun kv => eqs (fst kv) (s "aa")) good) /\ length (dedup used') = 1).
+Proof.
+  destruct (verify_step_links_legacy x_sig_ok x_now_s L2 (main_keys_for_subkeys L2) st1 (loaded [fA; fB_replayed] L2 st1) [] [])
+    as [[used good]|] eqn:E; [|vm_compute in E; discriminate].
+  vm_compute in E. injection E as <- <-.
+  do 5 eexists. split; [reflexivity|]. split; [vm_compute; reflexivity|].
+  split; [right; left; reflexivity|]. split; [vm_compute; reflexivity|]. split; [vm_compute; discriminate|].
+  eexists. split; vm_compute; reflexivity.
+Qed.
